@@ -326,14 +326,17 @@ def check_C09(tier):
                 if mine != ref or any(p >= len(istates) for (q2, x), p in igoto.items() if q2 == q):
                     what = "transitions of a state differ from the canonical goto function"
                     break
-            # listed item order: sorted by (rule, dot), no duplicates
+            # representation details the property does not fix (item order inside a state, the Index field):
+            # the models and certificates assume them, so a change is a broken tie, not a violation
             for st in r.states():
                 its = [tuple(int(x) for x in it.split(".")) for it in st]
                 if its != sorted(set(its)):
-                    what = "item list of a state is not sorted/duplicate-free"
+                    ties.append({"what": "item list of a state is not sorted/duplicate-free (representation assumed by the certificates)", "case": r.id, "src": r.case["src"]})
+                    break
             for q, l in enumerate(l for l in r.impl if l.startswith("STATE ")):
                 if int(l.split()[2]) != q:
-                    what = "state's Index field differs from its position"
+                    ties.append({"what": "a state's Index field differs from its position", "case": r.id, "src": r.case["src"]})
+                    break
         if what:
             violations.append(viol(pid, r, what, {"states": [sorted(s) for s in istates][:40]}))
         if len(samples) < 3 and len(istates) > 4:
@@ -760,7 +763,7 @@ def check_C05(tier):
                     continue
                 pairs += 1
                 same = (xrun.norm_verdict(ra["verdict"]) == xrun.norm_verdict(rb["verdict"]) and
-                        (ra["verdict"] == "loop" or (ra["log"] == rb["log"] and ra["val"] == rb["val"] and ra["req"] == rb["req"])))
+                        (ra["verdict"] == "loop" or (ra["log"] == rb["log"] and ra["val"] == rb["val"])))
                 if not same:
                     violations.append(xviol(pid, res, c, a, "the packed parser and the -u parser differ on an input",
                                             {"input": w, a: {k: ra[k] for k in ("verdict", "log", "val", "req")},
@@ -833,7 +836,7 @@ def check_C06(tier):
                     violations.append(viol(pid, r, "syntax error not reported at the first token that cannot continue a sentence",
                                            {"input_symbol_ids": w, "tokens_requested": req, "first_bad_token_index": p}))
     # the compiled generated parsers, all five variants: outcome class and tokens requested
-    res = x_sweep(tier, rng, n=20 if tier == "quick" else 120)
+    res = x_sweep(tier, rng, n=20 if tier == "quick" else 300)
     ties += x_build_ties(res)
     t2, xruns = x_model_ties(res)
     ties += t2
@@ -908,7 +911,7 @@ HAND_SPECS = [
 
 def make_xcases(tier, rng, n=None):
     if n is None:
-        n = 30 if tier == "quick" else 200
+        n = 30 if tier == "quick" else 400
     xc = []
     for i, sp in enumerate(HAND_SPECS):
         xc.append({"id": "hand:%d" % i, "xs": xrun.xspec(sp, rng), "kind": "hand"})
@@ -1052,7 +1055,8 @@ def check_C08(tier):
             base = rs[0][1]
             for vn, r in rs[1:]:
                 same = (xrun.norm_verdict(r["verdict"]) == xrun.norm_verdict(base["verdict"]) and
-                        (base["verdict"] == "loop" or (r["log"] == base["log"] and r["val"] == base["val"] and r["req"] == base["req"])))
+                        (base["verdict"] == "loop" or (r["log"] == base["log"] and r["val"] == base["val"])))
+                # (the number of tokens requested is not part of this property; it is compared with the driver model as a tie)
                 if not same:
                     violations.append(xviol(pid, res, c, vn, "output variants disagree on an input",
                                             {"input": w, rs[0][0]: {k: base[k] for k in ("verdict", "log", "val", "req")},
@@ -1448,7 +1452,7 @@ def check_C16(tier):
     if not ok:
         return build_failure(pid, tier, msg)
     proof = common.prove(C16_THEOREMS, C16_MODULES)
-    n = 40 if tier == "quick" else 250
+    n = 40 if tier == "quick" else 1200
     specs = [c16_spec(rng) for _ in range(n)]
     for sp in HAND_SPECS:
         specs.append(sp)
@@ -1834,7 +1838,7 @@ def check_C10(tier):
     if not ok:
         return build_failure(pid, tier, msg)
     proof = common.prove(C10_THEOREMS, C10_MODULES)
-    nspec = 60 if tier == "quick" else 500
+    nspec = 60 if tier == "quick" else 2500
     nlay = 6 if tier == "quick" else 16
     cases, specs = [], {}
     for i in range(nspec):
@@ -1944,7 +1948,7 @@ def check_C11(tier):
     if not ok:
         return build_failure(pid, tier, msg)
     proof = common.prove(C11_THEOREMS, C11_MODULES)
-    n = 150 if tier == "quick" else 2000
+    n = 150 if tier == "quick" else 12000
     specs = [c11_spec(rng) for _ in range(n)]
     scrape_ok, scrape_bad = {}, {}
     work = common.tmpdir("c11")
@@ -2109,7 +2113,7 @@ def check_C12(tier):
     if not ok:
         return build_failure(pid, tier, msg)
     proof = common.prove(C12_THEOREMS, C12_MODULES)
-    n = 500 if tier == "quick" else 8000
+    n = 500 if tier == "quick" else 40000
     specs = [c12_spec(rng) for _ in range(n)]
     tiny = list(gen.enum_tiny(max_rules=3, max_len=2))
     if tier == "quick":
@@ -2182,7 +2186,7 @@ def c13_texts(tier, rng):
             texts.append(b[:k])
     junk = list("%{}'\"/*<>|:;$ \n\t") + ["%%", "%{", "%}", "/*", "*/", "//", "%token", "%union", "%start", "%type", "%left", "%prec", "$$", "{", "}",
                                              "\u0663", "\u0967", "\u00e9", "\u03bb", "\u00a0", "\ufeff", "\r", "\x00", "-", "9"]
-    n_edit = 400 if tier == "quick" else 6000
+    n_edit = 400 if tier == "quick" else 20000
     for _ in range(n_edit):
         b = rng.choice(base)
         s = list(b)
@@ -2639,9 +2643,9 @@ def check_C19(tier):
     cli = os.path.join(common.BIN, "yaccgo")
     failures = dict(C19_FAILURES)
     # random failing texts: prefixes / edits of valid files that the front end rejects
-    texts = c13_texts("quick", rng)
+    texts = c13_texts(tier, rng)
     rng.shuffle(texts)
-    for i, t in enumerate(texts[:150 if tier == "quick" else 1500]):
+    for i, t in enumerate(texts[:150 if tier == "quick" else 6000]):
         failures["mutated file %d" % i] = t
     violations, samples = [], []
     hist = {}
